@@ -14,7 +14,8 @@ def main():
     patch = sys.argv[1]
     checks = sys.argv[2:]
     nslots = min(4, len(checks))
-    slots = [cp.setup_slot(k) for k in range(nslots)]
+    base = int(os.environ.get("VPOOL_BASE", "0"))      # first slot number (other pool tools may be using the low ones)
+    slots = [cp.setup_slot(base + k) for k in range(nslots)]
     results = {}
 
     def work(c, k):
